@@ -10,6 +10,9 @@ import OFV.Spec.C04
 import OFV.Proofs.C04Term
 import OFV.Proofs.C04Sum
 import OFV.Proofs.C04OneBody
+import OFV.Proofs.C04TwoBodyAll
+import OFV.Proofs.C04Iop2
+import OFV.Proofs.C04Dch
 
 namespace OFV.C04
 open OFV OFV.Spec OFV.Model OFV.Model.C04 OFV.Sem
@@ -151,6 +154,46 @@ theorem jw_one_body_sound (tol : Rat) (p q : Nat) (c : GQ) (hok : jwOneBodyOk to
       = GV.coeff (applyOp .fermion (Spec.C04.oneBodyOp p q c) [m]) [x] :=
   jwOneBody_sound tol p q c hok m x
 
+/-- **`jordan_wigner_two_body` is sound for ALL `p, q, r, s` and all complex `c`**: every coincidence
+pattern (`p = q` or `r = s`: zero; two, three or four distinct indices) and every relative order of the
+indices (all 24 orderings of four distinct indices, with the sign tables `XYXX, YXXX, YYXY, YYYX` /
+`XXYY, YYXX` and the `(p > q) xor (r > s)` flip; the four placements of the repeated index with their
+conjugations).  The returned strings act on every basis state like `c a†_p a†_q a_r a_s + h.c.`
+(counted once when `{p, q} = {r, s}`), on every exact run (`jwTwoBodyOk`, evaluated by the driver on
+every generated input). -/
+theorem jw_two_body_sound (tol : Rat) (p q r s : Nat) (c : GQ) (hok : jwTwoBodyOk tol p q r s c = true)
+    (m x : Nat) :
+    GV.coeff (applyOp .qubit (jwTwoBody tol p q r s c) [m]) [x]
+      = GV.coeff (applyOp .fermion (Spec.C04.twoBodyOp p q r s c) [m]) [x] :=
+  jwTwoBody_sound tol p q r s c hok m x
+
+/-- **`jordan_wigner(InteractionOperator)` is sound**: for every size `n` and every Hermitian pair of tensors
+(`one[q,p] = conj one[p,q]`, `two[s,r,q,p] = conj two[p,q,r,s]`, real or complex, no further symmetry
+assumed) the loops over index combinations with symmetrised coefficients (`_jordan_wigner_interaction_op`:
+diagonal one-body, pairs `p < q`, pairs of pairs) produce an operator that acts on every basis state like
+`const + Σ one[p,q] a†_p a_q + Σ two[p,q,r,s] a†_p a†_q a_r a_s` — i.e. like `jordan_wigner` of the equivalent
+FermionOperator (`jw_exact`) — on every exact run (`jwInteractionOpOk`: all helper calls and all outer
+`+=` exact; evaluated by the driver on every generated tensor). -/
+theorem jw_interaction_op_sound (tol : Rat) (n : Nat) (const : GQ) (one two : List GQ)
+    (h1 : ∀ p q, p < n → q < n → get1 n one q p = (get1 n one p q).conj)
+    (h2 : ∀ p q r s, p < n → q < n → r < n → s < n → get2 n two s r q p = (get2 n two p q r s).conj)
+    (hok : jwInteractionOpOk tol n const one two = true) (m x : Nat) :
+    GV.coeff (applyOp .qubit (jwInteractionOp tol n const one two) [m]) [x]
+      = GV.coeff (applyOp .fermion (Spec.C04.interactionOp n const one two) [m]) [x] :=
+  jwInteractionOp_sound tol n const one two h1 h2 hok m x
+
+/-- **`jordan_wigner(DiagonalCoulombHamiltonian)` is sound**: for every `n`, Hermitian `T` and symmetric `V`
+(as stored in the object) the strings written out by `_jordan_wigner_diagonal_coulomb_hamiltonian` act like
+`const + Σ_{p,q} T[p,q] a†_p a_q + Σ_{p,q} V[p,q] n_p n_q` (all ordered pairs, the docstring formula) on
+every basis state, on every exact run. -/
+theorem jw_dch_sound (tol : Rat) (n : Nat) (const : GQ) (one two : List GQ)
+    (h1 : ∀ p q, p < n → q < n → get1 n one q p = (get1 n one p q).conj)
+    (h2 : ∀ p q, p < n → q < n → get1 n two q p = get1 n two p q)
+    (hok : jwDCHOk tol n const one two = true) (m x : Nat) :
+    GV.coeff (applyOp .qubit (jwDCH tol n const one two) [m]) [x]
+      = GV.coeff (applyOp .fermion (Spec.C04.dchOp n const one two) [m]) [x] :=
+  jwDCH_sound tol n const one two h1 h2 hok m x
+
 /-! ### non-vacuity -/
 
 /-- the threshold the driver runs with satisfies the hypothesis of the theorems -/
@@ -175,5 +218,48 @@ example : jwOneBodyOk Generated.eqTolerance 5 2 ⟨mkRat 3 4, -2⟩ = true
     ∧ jwOneBodyOk Generated.eqTolerance 0 3 ⟨0, mkRat 1 8⟩ = true
     ∧ jwOneBodyOk Generated.eqTolerance 4 4 ⟨-1, 0⟩ = true := by
   decide +kernel
+
+/-- exact-regime hypothesis of `jw_two_body_sound` on concrete inputs: four distinct indices out of
+order with a complex coefficient, a repeated index lying between the other two, and the diagonal -/
+example : jwTwoBodyOk Generated.eqTolerance 4 1 0 3 ⟨mkRat 3 4, -2⟩ = true
+    ∧ jwTwoBodyOk Generated.eqTolerance 2 5 0 2 ⟨0, mkRat 1 8⟩ = true
+    ∧ jwTwoBodyOk Generated.eqTolerance 3 1 1 3 ⟨-1, 0⟩ = true := by
+  decide +kernel
+
+/-- a complex Hermitian 2-orbital InteractionOperator satisfying all hypotheses of `jw_interaction_op_sound` -/
+example :
+    let one : List GQ := [⟨1, 0⟩, ⟨1, 1⟩, ⟨1, -1⟩, ⟨-2, 0⟩]
+    let two : List GQ := [0, 0, 0, 0, 0, ⟨0, 1⟩, ⟨mkRat 3 2, 0⟩, 0, 0, ⟨mkRat 1 2, 0⟩, ⟨0, -1⟩, 0, 0, 0, 0, 0]
+    (∀ p q, p < 2 → q < 2 → get1 2 one q p = (get1 2 one p q).conj)
+    ∧ (∀ p q r s, p < 2 → q < 2 → r < 2 → s < 2 → get2 2 two s r q p = (get2 2 two p q r s).conj)
+    ∧ jwInteractionOpOk Generated.eqTolerance 2 ⟨mkRat 1 2, 0⟩ one two = true := by
+  refine ⟨?_, ?_, by decide +kernel⟩
+  · intro p q hp hq
+    have : p = 0 ∨ p = 1 := by omega
+    have : q = 0 ∨ q = 1 := by omega
+    rcases ‹p = 0 ∨ _› with rfl | rfl <;> rcases ‹q = 0 ∨ _› with rfl | rfl <;> decide +kernel
+  · intro p q r s hp hq hr hs
+    have : p = 0 ∨ p = 1 := by omega
+    have : q = 0 ∨ q = 1 := by omega
+    have : r = 0 ∨ r = 1 := by omega
+    have : s = 0 ∨ s = 1 := by omega
+    rcases ‹p = 0 ∨ _› with rfl | rfl <;> rcases ‹q = 0 ∨ _› with rfl | rfl <;>
+      rcases ‹r = 0 ∨ _› with rfl | rfl <;> rcases ‹s = 0 ∨ _› with rfl | rfl <;> decide +kernel
+
+/-- exact-regime hypothesis of `jw_dch_sound` on a concrete 3-orbital Hamiltonian (complex hopping) -/
+example : jwDCHOk Generated.eqTolerance 3 ⟨mkRat 3 4, 0⟩
+    [⟨1, 0⟩, ⟨1, 1⟩, 0, ⟨1, -1⟩, ⟨-2, 0⟩, ⟨0, mkRat 1 2⟩, 0, ⟨0, -(mkRat 1 2)⟩, ⟨3, 0⟩]
+    [0, ⟨mkRat 1 2, 0⟩, ⟨-1, 0⟩, ⟨mkRat 1 2, 0⟩, 0, 0, ⟨-1, 0⟩, 0, 0] = true := by
+  decide +kernel
+
+/-! ### statements of C04 that are NOT proved here (covered by correspondence + Spec oracle only; see
+`OPEN_STATEMENTS` in harness/c04.py)
+
+* `reverse_jw_sound` (open):  `∀ Q m x, ⟨x| reverseJW tol Q |m⟩_fermion = ⟨x| Q |m⟩_qubit`, and its corollary
+  `reverse_jw_left_inverse`: `normal_ordered (reverse_jw (jw A)) = normal_ordered A`.
+* the exact-regime hypotheses (`jw…Ok`) cannot be dropped: `+=` deletes values below `EQ_TOLERANCE`.
+* linearity / multiplicativity / compatibility with Hermitian conjugation of `jordan_wigner` as separate
+  statements (they follow from `jw_exact` + the homomorphism theorems of the Spec semantics, C01).
+* the dual-basis jellium helpers (floating point; no Model). -/
 
 end OFV.C04
